@@ -346,12 +346,13 @@ func checkPrimitives(f lib.Flags, res *lib.Result, r *lib.RNG) {
 		// the two independent Pedersen implementations against each other (slow one on a sample)
 		if i%7 == 0 {
 			if bp := bigPoseidon(&a, &b); !bp.Equal(&is) {
+				res.Fatalf("the two reference Poseidon implementations of the harness disagree on (%s, %s)", p.a, p.b)
 				res.Mismatch(lib.Mismatch{Sig: "reference-poseidon-implementations-disagree", Input: rep, Model: feltHex(&bp), Impl: feltHex(&is)})
 			}
 			tp := textbookPedersen(&a, &b)
 			res.Hit("primitive:textbook-pedersen-cross-check")
 			if !tp.Equal(&ip) {
-				res.Note("harness: the two reference Pedersen implementations disagree on (%s, %s): %s vs %s", p.a, p.b, feltHex(&tp), feltHex(&ip))
+				res.Fatalf("the two reference Pedersen implementations of the harness disagree on (%s, %s): %s vs %s", p.a, p.b, feltHex(&tp), feltHex(&ip))
 				res.Mismatch(lib.Mismatch{Sig: "reference-pedersen-implementations-disagree", Input: rep, Model: feltHex(&tp), Impl: feltHex(&ip)})
 			}
 		}
